@@ -28,10 +28,10 @@ RULE = (
 
 def plan(tier, seed):
     specs = []
-    n = 64 if tier == 'thorough' else 16
+    n = 128 if tier == 'thorough' else 16
     for k in range(n):
         specs.append(dict(kind='history', sub=k, n=3 + k % 4,
-                          steps=1500 if tier == 'thorough' else 1000,
+                          steps=8000 if tier == 'thorough' else 1000,
                           dynamic=(k % 2 == 1),
                           starts=(4, 8, 16, 30)[(k // 2) % 4],
                           hashseed=k))
